@@ -7,11 +7,13 @@ event logs (one per operation) are compared exactly.
 Oracle (independent of the model): ghost-log predicates evaluated on the implementation's log, plus the C20
 reference parser on the bytes of the finished responses.
 
-case = {"eager": int, "sync": bool, "reqs": [{"pad": int, "close": bool, "script": [action...]}], "ops": [op...]}
+case = {"eager": int, "sync": bool, "tmo": int|None, "abt": int|None,
+        "reqs": [{"pad": int, "close": bool, "body": None | ["cl", n] | ["chunked", [n...]], "script": [action...]}], "ops": [op...]}
+tmo / abt: HTTPChannel.timeOut / abortTimeout in seconds of a task.Clock the channel's callLater is bound to
 action: "n" notifyFinish | "n:<reaction>" notifyFinish with a callback/errback that, when the Deferred fires, synchronously
         does each letter of <reaction> (f finish, w write, n notifyFinish, l transport.loseConnection() if the transport
         reports loss synchronously) | "w" write | "f" finish | "r" registerProducer(push) | "u" unregisterProducer
-op = ["data", n] | ["tp"] | ["tr"] | ["lose"] | ["app", i, action]
+op = ["data", n] | ["tp"] | ["tr"] | ["lose"] | ["app", i, action] | ["tick", seconds]
 sync: the transport calls connectionLost from inside loseConnection() (like StringTransportWithDisconnection)
 """
 from __future__ import annotations
@@ -27,13 +29,27 @@ RACTS = {"f": "RFinish", "w": "RWrite", "n": "RNotify", "l": "RLose"}
 
 
 def req_bytes(i: int, q) -> bytes:
-    return (b"GET /%d HTTP/1.1\r\nHost: h\r\n" % i + (b"Connection: close\r\n" if q["close"] else b"")
-            + (b"X-Pad: " + b"a" * q["pad"] + b"\r\n" if q["pad"] else b"") + b"\r\n")
+    body = q.get("body")
+    head = (b"POST" if body else b"GET") + b" /%d HTTP/1.1\r\nHost: h\r\n" % i
+    head += (b"Connection: close\r\n" if q["close"] else b"") + (b"X-Pad: " + b"a" * q["pad"] + b"\r\n" if q["pad"] else b"")
+    if not body:
+        return head + b"\r\n"
+    if body[0] == "cl":
+        return head + b"Content-Length: %d\r\n\r\n" % body[1] + b"b" * body[1]
+    chunks = b"".join(b"%x\r\n" % n + b"c" * n + b"\r\n" for n in body[1] if n > 0)
+    return head + b"Transfer-Encoding: chunked\r\n\r\n" + chunks + b"0\r\n\r\n"
+
+
+def has_decoder(q) -> bool:
+    """the body goes through a transfer decoder (Content-Length > 0, or chunked even if empty)"""
+    body = q.get("body")
+    return bool(body) and (body[0] == "chunked" or body[1] > 0)
 
 
 def _run(case):
     """-> (list of per-op event lists, transport bytes, closing flag)"""
     from twisted.internet.error import ConnectionDone
+    from twisted.internet.task import Clock
     from twisted.internet.testing import StringTransport
     from twisted.logger import Logger
     from twisted.python.failure import Failure as TFailure
@@ -77,6 +93,12 @@ def _run(case):
         def loseConnection(self):
             log.append("CL")
             StringTransport.loseConnection(self)          # disconnecting = True
+            if case.get("sync"):
+                report_loss()
+
+        def abortConnection(self):
+            log.append("AB")
+            StringTransport.loseConnection(self)
             if case.get("sync"):
                 report_loss()
 
@@ -168,9 +190,12 @@ def _run(case):
             connected[0] = False
             ch.connectionLost(TFailure(ConnectionDone()))
 
+    clock = Clock()
     ch = Chan()
     ch.requestFactory = Scripted
-    ch.timeOut = None
+    ch.timeOut = case.get("tmo")
+    ch.abortTimeout = case.get("abt")
+    ch.callLater = clock.callLater
     ch._optimisticEagerReadSize = case["eager"]
     t = T(lenient=True)
     ch.makeConnection(t)
@@ -182,9 +207,11 @@ def _run(case):
         log.clear()
         k = op[0]
         if k == "data":
-            if connected[0]:
+            if connected[0] and not t.disconnecting:       # a real transport stops reading at loseConnection()
                 ch.dataReceived(stream[pos:pos + op[1]])
             pos += op[1]
+        elif k == "tick":
+            clock.advance(op[1])
         elif k == "tp":
             if connected[0]:
                 ch.pauseProducing()
@@ -319,6 +346,10 @@ def check_log(case, obs):
             elif kind == "NR":
                 netpaused = False
             elif kind == "CL":
+                if op[0] == "tick" and open_ is not None and not dead:
+                    bad.append(("timeout-while-handling", where + f"idle timeout closed the connection while request {open_} is being handled"))
+                closed = True
+            elif kind == "AB":
                 closed = True
             elif kind in ("PP", "PR", "PS", "X"):
                 pass
@@ -369,21 +400,28 @@ def _act(a: str) -> str:
     return ACTS[a]
 
 
+def _opt(v) -> str:
+    return "(@None N)" if v is None else f"(Some {v}%N)"
+
+
 def to_coq(case):
     def q(i, r):
         n = len(req_bytes(i, r))
-        return f"mkQ {n}%N {coq_bool(not r['close'])} {coq_list([_act(a) for a in r['script']], 'act')}"
+        return (f"mkQ {n}%N {coq_bool(not r['close'])} {coq_bool(has_decoder(r))} "
+                f"{coq_list([_act(a) for a in r['script']], 'act')}")
 
     def op(o):
+        if o[0] == "tick":
+            return f"Tick {o[1]}%N"
         if o[0] == "data":
-            return f"Data {o[1]}%N"
+            return f"Op (Data {o[1]}%N)"
         if o[0] == "app":
-            return f"App {o[1]}%nat {_act(o[2])}"
-        return {"tp": "TPause", "tr": "TResume", "lose": "Lose"}[o[0]]
+            return f"Op (App {o[1]}%nat {_act(o[2])})"
+        return "Op " + {"tp": "TPause", "tr": "TResume", "lose": "Lose"}[o[0]]
 
-    return (f"({case['eager']}%N, {coq_bool(bool(case.get('sync')))}, "
+    return (f"({case['eager']}%N, {coq_bool(bool(case.get('sync')))}, {_opt(case.get('tmo'))}, {_opt(case.get('abt'))}, "
             f"{coq_list(['(' + q(i, r) + ')' for i, r in enumerate(case['reqs'])], 'reqspec')}, "
-            f"{coq_list([op(o) for o in case['ops']], 'op')})")
+            f"{coq_list([op(o) for o in case['ops']], 'top')})")
 
 
 REACTIONS = ["f", "n", "w", "l", "fn", "nf", "lf", "fl", "ln", "wfn", "nn", "lwnf", "fnl"]
@@ -402,6 +440,7 @@ SCRIPTS = ["", "", "f", "wf", "nf", "nwf", "nnwwf", "n", "nw", "w", "nn", "rwf",
 
 def _mk_reqs(rng, n):
     return [{"pad": rng.choice([0, 0, 0, 3, 17, 40]), "close": (rng.random() < 0.3) if i == n - 1 else (rng.random() < 0.07),
+             "body": rng.choice([None, None, None, ["cl", 0], ["cl", 1], ["cl", 23], ["chunked", []], ["chunked", [5]], ["chunked", [1, 17, 2]]]),
              "script": _script(rng, rng.choice(SCRIPTS))} for i in range(n)]
 
 
@@ -416,7 +455,12 @@ def _random_case(rng, big=False):
     eager = 16384 if (big or rng.random() < 0.4) else rng.choice([0, 1, 20, 37, 38, 39, 60, 100, 150])
     ops, pos, lost = [], 0, False
     steps = rng.randrange(3, 30) if not big else rng.randrange(4, 12)
+    tmo = None if (big or rng.random() < 0.5) else rng.choice([1, 2, 5, 10, 60])
+    abt = rng.choice([None, 1, 3, 15])
     for _ in range(steps):
+        if tmo is not None and rng.random() < 0.22:
+            ops.append(["tick", rng.choice([1, 1, max(1, tmo - 1), tmo, tmo + 1, (abt or 2), (abt or 2) + tmo, 100])])
+            continue
         r = rng.random()
         if not lost and r < 0.38 and pos < total:
             k = rng.choice([1, 2, 5, 17, 30, 36, 37, 38, 39, 40, 80, total]) if not big else rng.choice([total, 16000, 16384, 17000, 5000])
@@ -434,7 +478,7 @@ def _random_case(rng, big=False):
             i = rng.randrange(min(n, 8))
             a = rng.choice("nnwwfffru") if not lost else rng.choice("nwf")
             ops.append(["app", i, _notify(rng) if a == "n" else a])
-    return {"eager": eager, "sync": rng.random() < 0.4, "reqs": reqs, "ops": ops}
+    return {"eager": eager, "sync": rng.random() < 0.4, "tmo": tmo, "abt": abt, "reqs": reqs, "ops": ops}
 
 
 def gen(rng, tier):
@@ -469,6 +513,32 @@ def gen(rng, tier):
                         ops.append(o)
                     if ok:
                         cases.append({"eager": 30, "sync": rng.random() < 0.6, "reqs": reqs, "ops": ops})
+    # idle timeout: two requests (the second with a body), every history up to length 4 (thorough 5) over ticks around
+    # timeOut = 5 / abortTimeout = 3, deliveries, finish, loss
+    talpha = [["tick", 2], ["tick", 3], ["tick", 5], ["data", 20], ["data", 1000], ["app", 0, "f"], ["lose"], ["app", 1, "f"]]
+    for sync in (False, True):
+        for s0 in ("", "f"):
+            for body in (None, ["cl", 7], ["chunked", [3]]):
+                reqs = [{"pad": 0, "close": False, "body": None, "script": s0}, {"pad": 0, "close": False, "body": body, "script": ""}]
+                total = sum(len(req_bytes(i, q)) for i, q in enumerate(reqs))
+                tdepth = 4 if tier == "quick" else 5
+                for n in range(1, tdepth + 1):
+                    for word in itertools.product(range(len(talpha)), repeat=n):
+                        if n >= 4 and rng.random() > (0.03 if tier == "quick" else 0.1):
+                            continue
+                        if n == 3 and tier == "quick" and rng.random() > 0.3:
+                            continue
+                        ops, pos = [], 0
+                        for w in word:
+                            o = list(talpha[w])
+                            if o[0] == "data":
+                                o[1] = min(o[1], total - pos)
+                                if o[1] <= 0:
+                                    continue
+                                pos += o[1]
+                            ops.append(o)
+                        if ops:
+                            cases.append({"eager": 30, "sync": sync, "tmo": 5, "abt": 3, "reqs": reqs, "ops": ops})
     for _ in range(1200 if tier == "quick" else 15000):
         cases.append(_random_case(rng))
     for _ in range(6 if tier == "quick" else 60):
@@ -499,6 +569,13 @@ def corpus():
          "ops": [["data", 200], ["app", 0, "f"], ["app", 1, "f"]]},
         {"eager": 16384, "sync": True, "reqs": [{"pad": 0, "close": True, "script": ["n:ln", "w", "f"]}, {"pad": 0, "close": False, "script": "f"}],
          "ops": [["data", 200], ["lose"]]},
+        # idle timeout while half of the second request is buffered, then forceAbortClient; timeout disabled while handling
+        {"eager": 16384, "sync": False, "tmo": 5, "abt": 3,
+         "reqs": [{"pad": 0, "close": False, "script": "f"}, {"pad": 0, "close": False, "body": ["cl", 9], "script": ""}],
+         "ops": [["data", 50], ["tick", 4], ["tick", 1], ["tick", 3], ["lose"]]},
+        {"eager": 16384, "sync": False, "tmo": 5, "abt": 3,
+         "reqs": [{"pad": 0, "close": False, "body": ["chunked", [4, 1]], "script": ""}, {"pad": 0, "close": False, "script": "f"}],
+         "ops": [["data", 1000], ["tick", 100], ["app", 0, "f"], ["tick", 4], ["tick", 1], ["tick", 2], ["tick", 1]]},
     ]
 
 
@@ -535,6 +612,8 @@ def shrink(case):
 def _hist(case, obs):
     kinds = "".join(sorted({o[0][0] for o in case["ops"]}))
     re_ = any(":" in a for q in case["reqs"] for a in q["script"]) or any(o[0] == "app" and ":" in o[2] for o in case["ops"])
+    kinds += " tmo" if case.get("tmo") else ""
+    kinds += " body" if any(q.get("body") for q in case["reqs"]) else ""
     return f"reqs={min(len(case['reqs']), 7)} ops={kinds}{' sync' if case.get('sync') else ''}{' reactions' if re_ else ''}"
 
 
